@@ -120,6 +120,9 @@ struct iauth_xquery_client {
     /** Bitmask of services that sent OK responses to this client. */
     uint32_t ok_mask;
 
+    /** Value of #iauth_xquery_epoch up to which the masks are current. */
+    unsigned int epoch;
+
     /** Account name concatenated with password; empty if unknown.
      *
      * This is the value passed by the client in its *first* PASSWORD
@@ -148,6 +151,9 @@ static const char *type_names[] = {
 struct iauth_xquery_service {
     /** Number of clients who need reponses from this service. */
     unsigned int refs;
+
+    /** Value of #iauth_xquery_epoch when this service got its table slot. */
+    unsigned int epoch;
 
     /** Type of service, from configuration file. */
     enum iauth_xquery_type type;
@@ -242,6 +248,39 @@ static void iauth_xquery_report_stats(void)
         stats.n_srv_allocs, stats.n_srv_frees, stats.n_cli_allocs);
 }
 
+/** Counts the services ever put into the table. */
+static unsigned int iauth_xquery_epoch;
+
+/** Look up our state for \a req.
+ *
+ * The per-client masks are indexed by table slot, and a slot is handed
+ * to a new service once its previous occupant is gone.  What a client
+ * noted about the previous occupant says nothing about the new one, so
+ * forget the bits of every slot that changed hands since we last looked.
+ */
+static struct iauth_xquery_client *iauth_xquery_find_client(struct iauth_request *req)
+{
+    struct iauth_xquery_client *cli;
+    struct iauth_xquery_service *srv;
+    void *ptr;
+    unsigned int ii;
+
+    ptr = &iauth_xquery;
+    cli = set_find(&req->data, &ptr);
+    if (!cli || (cli->epoch == iauth_xquery_epoch))
+        return cli;
+    for (ii = 0; (ii < iauth_xquery_services.used) && (ii < 32); ++ii) {
+        srv = iauth_xquery_services.vec[ii];
+        if (srv && (srv->epoch > cli->epoch)) {
+            cli->sent_mask &= ~(1u << ii);
+            cli->more_mask &= ~(1u << ii);
+            cli->ok_mask &= ~(1u << ii);
+        }
+    }
+    cli->epoch = iauth_xquery_epoch;
+    return cli;
+}
+
 static void iauth_xquery_unref(unsigned int ii)
 {
     struct iauth_xquery_service *srv;
@@ -276,15 +315,13 @@ static void iauth_xquery_x_reply(const char service[], const char routing[],
     struct iauth_xquery_client *cli;
     struct iauth_xquery_service *srv = NULL;
     struct iauth_request *req;
-    void *ptr;
     unsigned int ii;
 
     /* Find the client. */
     req = iauth_validate_request(routing);
     if (!req)
         return;
-    ptr = &iauth_xquery;
-    cli = set_find(&req->data, &ptr);
+    cli = iauth_xquery_find_client(req);
     if (!cli)
         return;
 
@@ -379,6 +416,7 @@ static void iauth_xquery_new_client(struct iauth_request *req)
     node = set_node_alloc(sizeof(*cli));
     cli = set_node_data(node);
     cli->key = &iauth_xquery;
+    cli->epoch = iauth_xquery_epoch;
     set_insert(&req->data, node);
 }
 
@@ -388,14 +426,12 @@ static void iauth_xquery_check(struct iauth_request *req,
     struct iauth_xquery_client *cli;
     struct iauth_xquery_service *srv;
     const char *hostname;
-    void *ptr;
     unsigned int ii;
     char routing[ROUTINGLEN];
     char username[USERLEN+2];
 
     /* Find the client's state struct. */
-    ptr = &iauth_xquery;
-    cli = set_find(&req->data, &ptr);
+    cli = iauth_xquery_find_client(req);
     if (!cli)
         return;
 
@@ -537,12 +573,10 @@ static void iauth_xquery_password(struct iauth_request *req,
                                   const char password[])
 {
     struct iauth_xquery_client *cli;
-    void *ptr;
     unsigned int ii;
 
     /* Look up our state structure for the client. */
-    ptr = &iauth_xquery;
-    cli = set_find(&req->data, &ptr);
+    cli = iauth_xquery_find_client(req);
     if (!cli)
         return;
 
@@ -608,6 +642,7 @@ static void iauth_xquery_config_service(const char *name, const char *type)
         stats.n_srv_allocs++;
         srv = xmalloc(sizeof(*srv) + strlen(name));
         strcpy(srv->name, name);
+        srv->epoch = ++iauth_xquery_epoch;
 
         /* Try to insert it in an empty slot. */
         for (ii = 0; ii < iauth_xquery_services.used; ++ii) {
@@ -727,18 +762,19 @@ int iauth_xreply_ok(struct iauth_request *request, const char *service)
 {
     struct iauth_xquery_service *srv;
     struct iauth_xquery_client *cli;
-    void *ptr;
     unsigned int ii;
 
-    ptr = &iauth_xquery;
-    cli = set_find(&request->data, &ptr);
+    cli = iauth_xquery_find_client(request);
     if (!cli)
         return -1;
 
     for (ii = 0; ii < iauth_xquery_services.used; ++ii)
     {
         srv = iauth_xquery_services.vec[ii];
-        if (!srv || strcasecmp(service, srv->name))
+        /* A service that was taken out of the configuration only lingers
+         * while some client still awaits its answer; whether one does must
+         * not change what the rules say about anybody else. */
+        if (!srv || !srv->configured || strcasecmp(service, srv->name))
             continue;
         if ((cli->ok_mask & (1u << ii)) != 0)
             return 1;
